@@ -17,6 +17,8 @@ stdin: JSON list of cases {op: ...}; stdout: JSON list of canonical observations
                                                           -> [code, violations, number of printed lines]
   rstreader {line}                                       restructuredtext._EpydocReader.report(system_message(line=...))
                                                           -> [ParseError._linenum, the lineno_offset reportErrors derives from it]
+  rstconsol {doc}                                        restructuredtext.parse_docstring of a docstring with an unsplittable
+                                                          consolidated field -> [ParseError._linenum, lineno_offset]
   attrline {fmt, src, cls, attr}                          extract_fields: line of an attribute documented by a field
                                                           -> [cls.docstring_lineno, attr.linenumber, attr.docstring_lineno]
 """
@@ -139,6 +141,13 @@ def run_case(c):
             attrs['line'] = c['line']
         reader.report(nodes.system_message('some message', **attrs))
         e = errors[0]
+        return [e._linenum, (e.linenum() or 1) - 1]
+    if op == 'rstconsol':
+        from pydoctor.epydoc.markup import restructuredtext as rst
+        errs = []
+        rst.parse_docstring(c['doc'], errs)
+        mine = [e for e in errs if 'Unable to split consolidated field' in e.descr()]
+        e = mine[0]
         return [e._linenum, (e.linenum() or 1) - 1]
     if op == 'attrline':
         opts = Options.defaults()
